@@ -21,6 +21,7 @@ import (
 	"os"
 	"path/filepath"
 	"sort"
+	"strings"
 
 	"verif/harness/internal/gallina"
 	"verif/harness/internal/rng"
@@ -62,6 +63,7 @@ type metaOut struct {
 	Shards      []string            `json:"shards"`
 	Seed        uint64              `json:"seed"`
 	ExecErrors  []string            `json:"exec_errors"`
+	Skipped     int                 `json:"skipped"`
 }
 
 func addHist(dst, src map[string]int) {
@@ -122,6 +124,12 @@ func Main(a Area) {
 	for i, h := range histories {
 		term, info, err := a.Execute(h)
 		if err != nil {
+			if strings.HasPrefix(err.Error(), "SKIP:") {
+				// the history is outside what the model determines (e.g. an
+				// exact timestamp tie); counted, not an error
+				meta.Skipped++
+				continue
+			}
 			meta.ExecErrors = append(meta.ExecErrors, fmt.Sprintf("case %d: %v", i, err))
 			continue
 		}
